@@ -452,6 +452,7 @@ func ruleReadLinePrefixUsed(c *chk.Ctx) {
 func ruleInlineDecisionNotByIndex(c *chk.Ctx, d *dispatchModel) {
 	loopFn := taskLoopFunc(c, d)
 	if loopFn == nil || d.numToDo == nil {
+		c.Undecided("PAIR.countdown", nil, "ruleInlineDecisionNotByIndex: anchor", 0, "the code this rule is anchored in was not found (loopFn == nil || d.numToDo == nil)")
 		return
 	}
 	isCount := func(x ssa.Value) bool {
@@ -698,6 +699,7 @@ func ruleSlotWaitErrorReturnedAsIs(c *chk.Ctx, d *dispatchModel) {
 	f := d.invoke
 	ops := semOps(c)
 	if ops == nil {
+		c.Undecided("PAIR.sem", nil, "ruleSlotWaitErrorReturnedAsIs: anchor", 0, "the code this rule is anchored in was not found (ops == nil)")
 		return
 	}
 	var acq *ssa.Call
@@ -709,6 +711,7 @@ func ruleSlotWaitErrorReturnedAsIs(c *chk.Ctx, d *dispatchModel) {
 		}
 	})
 	if acq == nil {
+		c.Undecided("PAIR.sem", nil, "ruleSlotWaitErrorReturnedAsIs: anchor", 0, "the code this rule is anchored in was not found (acq == nil)")
 		return
 	}
 	sameErr := func(x ssa.Value) bool { return x == ssa.Value(acq) || ir.NormCell(x) == ssa.Value(acq) }
